@@ -182,6 +182,36 @@ def run_case(case):
             res.tags.add("interleaved-walks")
         except Exception as e:  # noqa
             res.fail("iterator-raised", "interleaved walks raised %r" % (e,))
+    # nodes() over a database with one node body withheld: everything yielded before the missing node is the start of the
+    # pre-order of the complete trie, and the walk then reports exactly that node (never a wrong or skipped subtree)
+    live = sorted(h for h in hexlib.yp_nodes(model)[1] if h != trie.root_hash and h in r.db)
+    victims = live if live and rng.random() < 0.85 else sorted(h for h in r.db if h != trie.root_hash)
+    if nodes is not None and victims and not case["prune"]:
+        victim = victims[rng.randrange(len(victims))]
+        body = r.db.pop(victim)
+        res.emit("hx.drop %s" % hx(victim), "ok")
+        r.free_sync = r.rr_sync = False
+        got, out = [], "completed"
+        try:
+            for ent in NodeIterator(trie).nodes():
+                got.append(ent)
+        except Exception as e:  # noqa
+            out = hexlib.fmt_exc(e)
+        full = [(tuple(p), hexlib.fmt_ann(n)) for p, n in nodes]
+        if [(tuple(p), hexlib.fmt_ann(n)) for p, n in got] != full[:len(got)]:
+            res.fail("nodes-wrong-on-partial-db", "with the body of %s withheld nodes() yields %r, not a start of the pre-order"
+                     % (victim.hex(), [nibstr(p) for p, _ in got]))
+        if out == "completed":
+            if len(got) != len(full):
+                res.fail("nodes-wrong-on-partial-db", "with the body of %s withheld nodes() ends early without an error" % victim.hex())
+            res.tags.add("partial-db-nodes:unreferenced-victim")
+        else:
+            if not out.startswith("exn MissingTraversalNode " + hx(victim)):
+                res.fail("nodes-wrong-on-partial-db", "with the body of %s withheld nodes() raised %s" % (victim.hex(), out))
+            res.tags.add("partial-db-nodes:missing-reported")
+            res.emit("hx.nodesloopd 0", out)
+        r.db[victim] = body
+        res.emit("hx.put %s %s" % (hx(victim), hx(body)), "ok")
     res.nontrivial = len(model) >= 2
     res.state_key = common.sha(sorted((k.hex(), v.hex()) for k, v in model.items()))
     return res
